@@ -16,6 +16,9 @@ claimed = {
  "C03": dict(level="exploration", technique="property-based testing (rapid), model-based: generated bind tables with prefix chains and macros x key strings, probe commands registered and bound through the public API; reference resolver (longest-match automaton) vs probe invocation log",
    text="The tested keymap is replaced by a generated table of probe commands; the same input is delivered one key per read (so every invocation is timed against the key that caused it) and in a single read; the log of probe invocations must equal an emission list of an independent reference resolver, which branches where the statement is silent.",
    note=RIG_NOTE + " Probes are ordinary commands registered with Keymap.Register and bound with Config.Bind.", ref="DESIGN.md §3 C03, appendix A.1"),
+ "C04": dict(level="exploration", technique="property-based testing (rapid): generated editing sessions on a real pty; oracle = VT100 emulator grid and cursor vs an independent reference layout of (prompt, buffer, cursor, width), judged under both erase-at-margin interpretations",
+   text="Every byte the library writes goes through the rig's VT100 emulator; at each wait of the main loop the grid is snapshotted at the moment the wait marker leaves the pty and compared with a layout computed from the API's buffer and cursor index only (wrap rule, wide runes wrapped whole, combining marks, TAB runs, continuation rows).",
+   note=RIG_NOTE, ref="DESIGN.md §3 C04, appendix A.2"),
  "C05": dict(level="exploration", technique="property-based testing (rapid), differential / metamorphic: the same generated key bytes delivered under several read schedules (per token, random byte cuts, single paste, bytes glued to a cursor-position report) must give the same outcome",
    text="Schedules are owned by the harness: the gate delivers exactly the prescribed chunk to each read of the library and the emulated terminal can attach bytes to its cursor-position reports, so 'how bytes are split across reads' and 'arriving while the editor queries the cursor' are generated, shrinkable inputs; the oracle is equality of (line, error) or of the final editor state across schedules. Exploration over scripts x schedules.",
    note=RIG_NOTE + " ESC lone/prefix marking per the statement; valid UTF-8 only; two known findings excluded by construction and reported from regress cases.", ref="DESIGN.md §3 C05"),
